@@ -56,7 +56,9 @@ def registration_rule(F, R, rule):
     lay = find_layout_adt(F, M)
     if not lay:
         raise Undecided('queue layout type (enum/struct holding the DMA regions) not found')
-    P = RuleProxy(R, {'L3': rule}, only=lambda inst: 'queue_set' in inst)
+    # ... and the driver writes the rings where the device was told they are: the layout's pointer accessors select the same
+    # (region, offset) as its device-address accessors, and the constructor takes each ring pointer from the accessor of its area
+    P = RuleProxy(R, {'L3': rule}, only=lambda inst: 'queue_set' in inst or inst.startswith('accessors:') or ':pointer:' in inst)
     roles = l2_alloc(F, P, M, lay)
     l3_registration(F, P, M, lay, roles)
 
